@@ -390,6 +390,11 @@ fn first_trace_diff(exp: &[TraceEv], got: &[TraceEv]) -> Option<Disc> {
             let show = |s: &Vec<(Vec<u8>, Vec<u8>)>| s.iter().map(|(k, v)| format!("{}={}", rawstate::show(k), rawstate::show(v))).collect::<Vec<_>>();
             return Some(Disc { props: vec!["C02", "C08", "C12"], sig: "own-storage-at-entry-differs".into(), detail: format!("{}: expected storage {:?}, observed {:?}", pos, show(&e.storage), show(&g.storage)) });
         }
+        if e.storage_desc != g.storage_desc {
+            let show = |s: &Vec<(Vec<u8>, Vec<u8>)>| s.iter().map(|(k, v)| format!("{}={}", rawstate::show(k), rawstate::show(v))).collect::<Vec<_>>();
+            let (what, ev, gv) = if e.storage_desc.0 != g.storage_desc.0 { ("at entry", &e.storage_desc.0, &g.storage_desc.0) } else { ("after its own writes", &e.storage_desc.1, &g.storage_desc.1) };
+            return Some(Disc { props: vec!["C08", "C02", "C10"], sig: "own-storage-iterated-descending-differs".into(), detail: format!("{} {}: expected {:?}, observed {:?}", pos, what, show(ev), show(gv)) });
+        }
         if e.probes != g.probes {
             for (j, (pe, pg)) in e.probes.iter().zip(g.probes.iter()).enumerate() {
                 if pg.0 != pg.1 {
